@@ -1,2 +1,121 @@
-From ICS Require Import Base.Tree Model.Lifecycle.
-Theorem placeholder : True. Proof. exact I. Qed.
+(* Property C11: stopped consumers get no updates and are removed after the unbonding period.
+   Theorems about Model/Lifecycle.v (the model the correspondence driver harness/c10 runs); proofs are in
+   Proofs/Lifecycle{Base,Inv,Steps,C10,C11}.v.  [reach U ops] = the state after an arbitrary sequence of operations
+   from the empty state; U = provider unbonding period.  A consumer is stopped (phase 4) by the owner's
+   MsgRemoveConsumer, by a packet timeout or an error acknowledgement on its channel, or by a failing SendPacket in
+   EndBlock; StopAndPrepareForConsumerRemoval may run again for a stopped consumer (another in-flight packet times
+   out): it overwrites the removal time and queues the consumer a second time. *)
+From Coq Require Import ZArith List Bool.
+From ICS Require Import Base.Tree Model.Lifecycle Proofs.LifecycleBase Proofs.LifecycleInv Proofs.LifecycleSteps
+  Proofs.LifecycleC10 Proofs.LifecycleC11.
+Import ListNotations.
+Open Scope Z_scope.
+
+(* ---- "the provider immediately stops computing and sending validator updates for it" ----
+   from the stop on (whatever its cause) and for every continuation of the history: no packet is handed to the
+   channel (c_sent constant), none is queued (the pending count stays, until the deletion empties it), and the
+   phase never goes back *)
+Theorem C11_no_packets_after_stop : forall U ops ops' c r, get (reach U ops) c = Some r -> 4 <= c_phase r ->
+  exists r', get (reach U (ops ++ ops')) c = Some r' /\
+    c_sent r' = c_sent r /\ c_phase r <= c_phase r' <= 5 /\
+    (p_pending (c_proto r') = p_pending (c_proto r) \/ (c_phase r' = 5 /\ p_pending (c_proto r') = 0)).
+Proof. exact c11_no_packets_after_stop. Qed.
+
+(* ---- "yet keeps its key assignments, client binding and evidence/slashing state until ..." ----
+   while the consumer stays stopped, every step other than another sub-protocol's own write to this consumer
+   (ODecorate c / OChannel c) leaves all protocol state except the removal time unchanged; together with
+   C11_not_before the consumer stays stopped in every begin-block before stop time + U *)
+Theorem C11_retained_until_removal : forall U ops ops' c r r', get (reach U ops) c = Some r -> c_phase r = 4 ->
+  get (reach U (ops ++ ops')) c = Some r' -> c_phase r' = 4 ->
+  Forall (fun o => targets o c = false) ops' ->
+  c_desc r' = c_desc r /\ c_sent r' = c_sent r /\
+  p_client (c_proto r') = p_client (c_proto r) /\ p_genesis (c_proto r') = p_genesis (c_proto r) /\
+  p_evmin (c_proto r') = p_evmin (c_proto r) /\ p_channel (c_proto r') = p_channel (c_proto r) /\
+  p_valset (c_proto r') = p_valset (c_proto r) /\ p_pending (c_proto r') = p_pending (c_proto r) /\
+  p_optin (c_proto r') = p_optin (c_proto r) /\ p_extra (c_proto r') = p_extra (c_proto r).
+Proof. exact c11_retained_until_removal. Qed.
+
+(* ---- "until one provider unbonding period has elapsed since the stop" ----
+   if step [o] takes c from launched to stopped (at block time s_now s1) and a later step [last] deletes it, then
+   [last] is a begin-block whose time is at least stop time + U -- also when the consumer is stopped again in
+   between (the FIRST queue entry fires first, and it is not earlier than the first stop + U).
+   Hypotheses: block times do not decrease, U >= 0. *)
+Theorem C11_not_before : forall U pre o mid last c, 0 <= U ->
+  monotone 0 (pre ++ o :: mid ++ [last]) ->
+  let s0 := reach U pre in let s1 := step U s0 o in
+  let s2 := fold_left (step U) mid s1 in let s3 := step U s2 last in
+  phase_of s0 c = 3 -> phase_of s1 c = 4 -> phase_of s2 c = 4 -> phase_of s3 c = 5 ->
+  exists T ora, last = OBegin T ora /\ s_now s1 + U <= T.
+Proof. exact c11_not_before. Qed.
+
+(* ---- "It then deletes the consumer's protocol state ... and marks the consumer deleted, retaining only descriptive
+        records" ---- *)
+
+(* the deleting step (always a begin-block) empties every protocol field and keeps the descriptive record *)
+Theorem C11_deletion_step : forall U ops o c r r', get (reach U ops) c = Some r -> c_phase r = 4 ->
+  get (step U (reach U ops) o) c = Some r' -> c_phase r' = 5 ->
+  c_proto r' = empty_proto /\ c_desc r' = c_desc r /\ c_sent r' = c_sent r /\ c_id r' = c_id r /\
+  exists T ora, o = OBegin T ora.
+Proof. exact c11_deletion_step. Qed.
+
+(* and a deleted consumer never has any again (p_extra: records that other sub-protocols write through keeper
+   setters without a phase check are outside this model's control; the message handlers check the phase) *)
+Theorem C11_deleted_state : forall U ops c r, get (reach U ops) c = Some r -> c_phase r = 5 ->
+  p_client (c_proto r) = false /\ p_genesis (c_proto r) = false /\ p_evmin (c_proto r) = false /\
+  p_channel (c_proto r) = false /\ p_valset (c_proto r) = 0 /\ p_pending (c_proto r) = 0 /\
+  p_removal (c_proto r) = 0 /\ p_optin (c_proto r) = [].
+Proof. exact c11_deleted_state. Qed.
+
+(* ---- "many consumers stopping at the same time": the removal queue is processed 200 ids per block ---- *)
+Theorem C11_many : forall U ops now ora,
+  let s := reach U ops in let s' := step U s (OBegin now ora) in let ratt := removal_due s now in
+  all_ids (s_remq s') = skipn (length ratt) (all_ids (s_remq s)) /\
+  (forall c r, In c ratt -> get s c = Some r -> c_phase r = 4 -> get s' c = Some (delete_consumer r)) /\
+  (forall c r, ~ In c ratt -> get s c = Some r -> c_phase r = 4 -> get s' c = Some r).
+Proof. exact c11_many. Qed.
+
+Theorem C11_carry_over : forall U ops T bl, Forall (fun b => T <= fst b) bl ->
+  let s := reach U ops in
+  let s' := fold_left (step U) (map (fun b => OBegin (fst b) (snd b)) bl) s in
+  length (due (s_remq s') T) = (length (due (s_remq s) T) - limit * length bl)%nat.
+Proof. exact c11_carry_over. Qed.
+
+(* ---- "It then deletes ...": every stopped consumer is queued under its removal time, and the first begin-block at
+        or after it deletes the consumer (when at most 200 ids are due; otherwise C11_carry_over applies) ---- *)
+Theorem C11_scheduled : forall U ops c r, get (reach U ops) c = Some r -> c_phase r = 4 ->
+  In c (tq_get (s_remq (reach U ops)) (p_removal (c_proto r))).
+Proof. exact c11_scheduled. Qed.
+
+Theorem C11_removed_when_due : forall U ops now ora c r,
+  let s := reach U ops in
+  get s c = Some r -> c_phase r = 4 -> p_removal (c_proto r) <= now ->
+  (length (due (s_remq s) now) <= limit)%nat ->
+  get (step U s (OBegin now ora)) c = Some (delete_consumer r).
+Proof. exact c11_removed_when_due. Qed.
+
+(* ---- non-vacuity: launch, channel, packets, owner stop at time 20, a timeout re-stops it at time 40 (U = 50) ---- *)
+
+Definition good : lora := mkLO 2 true false.
+Definition ex_pre : list op :=
+  [ OCreate 1 7 1 (Some (5, 1, 0)); OOptIn 0 3 true; ODecorate 0 39; OBegin 10 [(0, good)]; OChannel 0;
+    OEnd true [0] [(0, mkEO true 2 0)]; OBegin 20 [] ].
+Definition ex_mid : list op :=
+  [ OEnd true [0] [(0, mkEO true 3 0)]; OBegin 40 []; OTimeout 0; OUpdate 0 1 None None None; OBegin 69 [] ].
+
+Example C11_ex_stop :
+  let s1 := reach 50 (ex_pre ++ [ORemove 0 1]) in
+  let s2 := fold_left (step 50) ex_mid s1 in
+  let s3 := step 50 s2 (OBegin 70 []) in
+  monotone 0 (ex_pre ++ ORemove 0 1 :: ex_mid ++ [OBegin 70 []]) /\
+  map (fun s => phase_of s 0) [reach 50 ex_pre; s1; s2; s3] = [3; 4; 4; 5] /\
+  s_remq s1 = [(70, [0])] /\ s_remq s2 = [(70, [0]); (90, [0])] /\ s_remq s3 = [(90, [0])] /\
+  match get s1 0, get s2 0, get s3 0 with
+  | Some r1, Some r2, Some r3 =>
+      c_sent r1 = 1 /\ c_sent r3 = 1 /\ p_removal (c_proto r1) = 70 /\ p_removal (c_proto r2) = 90 /\
+      p_extra (c_proto r2) = [22; 23; 39] /\ p_client (c_proto r2) = true /\ c_proto r3 = empty_proto /\
+      d_spawn (c_desc r3) = 5
+  | _, _, _ => False
+  end /\
+  (* the second queue entry later finds the consumer deleted: a no-op *)
+  phase_of (step 50 s3 (OBegin 90 [])) 0 = 5 /\ s_remq (step 50 s3 (OBegin 90 [])) = [].
+Proof. vm_compute. repeat split; try reflexivity; try (intros H; discriminate H). Qed.
